@@ -778,6 +778,16 @@ func (vc *VC) specCall(sc *SpecScope, x *SCall) *Value {
 					vc.specFail(sc, "unknown type %s", x.Args[1])
 				}
 				return intV(app("mkiface", vc.typeTag(T), a.Term), nil)
+			case "boxed":
+				// boxed(v, "I"): the value v (of its static Go type) converted to the interface type I
+				a := vc.evalSpec(sc, x.Args[0])
+				IT := vc.resolveType(sc, strings.Trim(x.Args[1].String(), "\""))
+				if IT == nil || a.T == nil {
+					vc.specFail(sc, "boxed(v, \"I\"): unknown type")
+				}
+				r := vc.toInterface(sc.cur, a, a.T, IT)
+				r.T = IT
+				return r
 			case "errIs":
 				as := args()
 				vc.declareErrIs()
